@@ -294,7 +294,9 @@ void ICMPv6::write_serialization(uint8_t* buffer, uint32_t total_sz) {
         uint32_t length_value = get_adjusted_inner_pdu_size();
         // If the next pdu size is greater than 128, we are forced to set the length field
         if (length() != 0 || length_value > 128) {
-            if (length_value > 0) {
+            // If we have extensions, we'll have at least 128 bytes.
+            // Otherwise, just use the (padded) length
+            if (length_value > 0 && has_extensions()) {
                 length_value = (length_value > 128U) ? length_value : 128U;
             }
             // This field uses 64 bit words as the unit
